@@ -9,6 +9,7 @@ import JenVerif.Props.C06
 import JenVerif.Props.C04
 import JenVerif.Props.C19
 import JenVerif.Props.C03
+import JenVerif.Props.C16
 /-
   Property statements transferred to the TRANSLATED code.
 
@@ -258,6 +259,31 @@ theorem C03_final_table_on_code (w : World) (f : FileS)
   rw [he, hs, ← hraw]
   simp [fileRender, fileRenderFrom, emit, hm, hnf]
 
+/-- C16 on the translated `Dict.render` (closed): what it writes is the layout of the SORTED list of
+    text pairs; that list is a permutation of exactly the non-null pairs' texts — each once — under the
+    naming of the File state it leaves behind, and it is ordered by key text (then value text) -/
+theorem C16_dict_on_code (cfg : Cfg) (f : FileS) (hg : Good cfg f) (ps : List (Code × Code)) (n : Nat)
+    (hn : depth (.dict ps) < n) (ht : TagsOk (.dict ps)) (w : Str) (hm : misusePairs f.np ps = false) :
+    let f' := (renderS cfg f none (.dict ps)).2
+    let sorted := (dictPairsP cfg (envOf f') ps).mergeSort dictLe
+    (srcRec cfg n).render f w none (.dict ps) = some (w ++ dictBodyP sorted.length true sorted, f') ∧
+    sorted.Perm ((ps.filter (C16.keptPair (envOf f').np)).map
+      fun p => (renderP cfg (envOf f') none p.1, renderP cfg (envOf f') none p.2)) ∧
+    sorted.Pairwise (fun a b => dictLe a b = true) := by
+  intro f' sorted
+  have h1 := srcRec_render cfg (.dict ps) n hn ht f (Or.inr (Or.inr (Or.inr ⟨_, rfl⟩))) hg w none
+  have hmis : misuse f.np (.dict ps) = false := by simpa [misuse] using hm
+  have h2 := C16.stateful_eq_pure cfg f hg ps f' (Ext.refl _)
+  have hs := C16.sorted_is_permutation cfg (envOf f') ps
+  refine ⟨?_, ?_, hs.2⟩
+  · rw [h1]
+    simp only [modelRec, hmis, Bool.false_eq_true, if_false, h2]
+    rfl
+  · have hp : sorted.Perm (dictPairsP cfg (envOf f') ps) := hs.1
+    rw [C16.pairs_exact cfg (envOf f') ps] at hp
+    exact hp
+
+#print axioms C16_dict_on_code
 #print axioms C03_final_table_on_code
 #print axioms C19_C_on_code
 #print axioms C04_block_exact_on_code
